@@ -377,7 +377,9 @@ func (m *chainMachine) deliver(label string, msg sdk.Msg, signer *cmActor) *cmTx
 	return tx
 }
 
-func cmPayKey(p etypes.Payment) string { return p.AccountID.Scope + "/" + p.AccountID.XID + "/" + p.PaymentID }
+func cmPayKey(p etypes.Payment) string {
+	return p.AccountID.Scope + "/" + p.AccountID.XID + "/" + p.PaymentID
+}
 func cmAccKey(a etypes.AccountID) string { return a.Scope + "/" + a.XID }
 
 func (m *chainMachine) trackHistory(tx *cmTx) {
